@@ -1,6 +1,5 @@
 use core::mem;
 
-use crate::align_offset;
 
 use super::{Allocator, Error};
 
@@ -201,8 +200,8 @@ impl Options {
   #[inline]
   fn data_offset_in<H>(reserved: usize, unify: bool) -> usize {
     if unify {
-      let offset = align_offset::<H>(reserved as u32) as usize + mem::align_of::<H>();
-      offset + mem::size_of::<H>()
+      let offset = crate::align_prefix::<H>(reserved).saturating_add(mem::align_of::<H>());
+      offset.saturating_add(mem::size_of::<H>())
     } else {
       reserved + 1
     }
